@@ -15,6 +15,14 @@ assert(_new_loadData ~= nil)
 local _lua_set_timeout = _lua_set_timeout
 local _lua_clear_timeout_hook = _lua_clear_timeout_hook
 local _raw_pcall = _raw_pcall
+-- The same for the functions that manage the environment stack of the
+-- processing context and the module cache.
+local _python_top_env = _python_top_env
+local _python_append_env = _python_append_env
+local _lua_reset_env = _lua_reset_env
+local _cached_mod = _cached_mod
+local _new_loader = _new_loader
+local _save_mod = _save_mod
 
 local function frame_args_index(new_args, key)
     -- print("frame_args_index", key)
@@ -282,5 +290,12 @@ assert(_G.io == nil)
 _G["_lua_set_timeout"] = nil
 _G["_lua_clear_timeout_hook"] = nil
 _G["_raw_pcall"] = nil
+_G["_python_top_env"] = nil
+_G["_python_append_env"] = nil
+_G["_lua_reset_env"] = nil
+_G["_lua_set_python_loader"] = nil
+_G["_cached_mod"] = nil
+_G["_new_loader"] = nil
+_G["_save_mod"] = nil
 
 return { _lua_set_functions, _lua_invoke, _lua_reset_env }
